@@ -164,6 +164,8 @@ def u_ray_two_triangles(ctx):
         ts.append(t)
         ps.append(p)
     ctx.assume(l_or(ts[0] - ts[1] >= 1e-3, ts[1] - ts[0] >= 1e-3))
+    if ctx.params.get("batch"):
+        return _two_triangles_batch(ctx, RT, tris, o, d, ts, ps)
     ro = o[None] if not ctx.sym else nparr.set_sd(nparr.wrap(nparr.base(o)[None]), np.float64)
     rd = d[None] if not ctx.sym else nparr.set_sd(nparr.wrap(nparr.base(d)[None]), np.float64)
     tree = TreeStub(tris, ctx.sym)
@@ -174,6 +176,32 @@ def u_ray_two_triangles(ctx):
     ctx.concrete_equal("first hit is the nearer triangle", [int(i) for i in np.asarray(it1).reshape(-1)], [first])
     if len(np.asarray(it1).reshape(-1)) == 1:
         ctx.eq("first hit location", np.asarray(nparr.base(loc1) if ctx.sym else loc1).reshape(-1), ps[first])
+
+
+def _two_triangles_batch(ctx, RT, tris, o, d, ts, ps):
+    """the same two triangles queried by a BATCH of two rays in one call: ray 0 starts between the triangles (one candidate
+    behind its origin, one ahead), ray 1 is the symbolic ray with both ahead; per-ray answers must not depend on the batch"""
+    s_ = ctx.real("s", 0.001, 0.999)  # where between the two crossings ray 0 starts: close behind it the nearer triangle's box still meets the ray's box
+    tm = ts[0] + s_ * (ts[1] - ts[0])
+    o0 = [o[i] + tm * d[i] for i in range(3)]
+    first = 0 if bool(ts[0] < ts[1]) else 1
+    oo, dd = np.array([o0, list(o)], dtype=object), np.array([list(d), list(d)], dtype=object)
+    if ctx.sym:
+        ro, rd = nparr.set_sd(nparr.wrap(oo), np.float64), nparr.set_sd(nparr.wrap(dd), np.float64)
+    else:
+        ro, rd = oo.astype(float), dd.astype(float)
+    tree = TreeStub(tris, ctx.sym)
+    it, ir, loc = RT.ray_triangle_id(tris, ro, rd, tree=tree, multiple_hits=True)
+    got = sorted((int(r), int(t)) for r, t in zip(np.asarray(ir).reshape(-1), np.asarray(it).reshape(-1)))
+    ctx.concrete_equal("batch, all hits: ray 0 hits only the farther triangle, ray 1 both", got, sorted([(0, 1 - first), (1, 0), (1, 1)]))
+    it1, ir1, loc1 = RT.ray_triangle_id(tris, ro, rd, tree=tree, multiple_hits=False)
+    got1 = sorted((int(r), int(t)) for r, t in zip(np.asarray(ir1).reshape(-1), np.asarray(it1).reshape(-1)))
+    ctx.concrete_equal("batch, first hits: ray 0 -> farther triangle, ray 1 -> nearer triangle", got1, [(0, 1 - first), (1, first)])
+    if got1 == [(0, 1 - first), (1, first)]:
+        L = np.asarray(nparr.base(loc1) if ctx.sym else loc1).reshape(-1, 3)
+        order = [int(r) for r in np.asarray(ir1).reshape(-1)]
+        ctx.eq("batch, first hit location of ray 1", L[order.index(1)], ps[first])
+        ctx.eq("batch, first hit location of ray 0", L[order.index(0)], ps[1 - first])
 
 
 def u_ray_bounds(ctx):
@@ -289,6 +317,8 @@ def units(tier):
     for k, dk in (((1, 3), (0, 0)) if not T else ((0, 0), (0, 2), (1, 1), (1, 3), (3, 4))):
         us.append(Unit("ray-two-triangles%d-dir%d" % (k, dk), u_ray_two_triangles, params={"tri": k, "dir": dk}, key="ray_two", functions=[F + "ray.ray_triangle.ray_triangle_id", "trimesh.grouping.group"], bounds="two parallel copies of catalogue triangle %d x catalogue direction %d x every origin whose ray crosses both interiors at margin" % (k, dk),
                        max_paths=300, wall_s=300, ob_ms=30000, feas_ms=800, group=False))
+        us.append(Unit("ray-batch-two-triangles%d-dir%d" % (k, dk), u_ray_two_triangles, params={"tri": k, "dir": dk, "batch": True}, key="ray_batch", functions=[F + "ray.ray_triangle.ray_triangle_id", F + "ray.ray_triangle.ray_triangle_candidates", "trimesh.grouping.group"], bounds="one call with two rays against two parallel copies of catalogue triangle %d, catalogue direction %d: every origin whose ray crosses both interiors at margin, plus a ray starting anywhere (symbolic fraction 0.001..0.999) between the two crossings" % (k, dk),
+                       max_paths=600, wall_s=300, ob_ms=30000, feas_ms=800, group=False))
     boxes = [((-3, -3, lib.Fr(1, 5)), (3, 3, lib.Fr(9, 5))), ((1, 1, lib.Fr(1, 5)), (6, 6, 4))] + ([((-6, -6, -3), (6, 6, lib.Fr(-1, 5)))] if T else [])
     for bi, bx in enumerate(boxes):
         us.append(Unit("nearby_faces-box%d" % bi, u_nearby_faces, params={"box": bx}, key="nearby_faces", functions=[F + "proximity.nearby_faces"],
